@@ -397,3 +397,12 @@ Proof.
 Qed.
 
 End TopK.
+
+(** Hypotheses satisfiable: a heavy hitter above N // k, and an eviction. *)
+Example topk_hypotheses_satisfiable :
+  let s := [(1, 3); (2, 1); (3, 1)] in
+  0 < 2 /\ tk_threshold 2 (tk_sketch 2 s topk_empty) = 2 /\ true_count 1 s = 3 /\
+  tk_find 1 (t_cnt (tk_sketch 2 s topk_empty)) = Some (3, 0) /\
+  tk_find 3 (t_cnt (tk_sketch 2 s topk_empty)) = Some (2, 1) /\
+  tk_find 2 (t_cnt (tk_sketch 2 s topk_empty)) = None.
+Proof. cbv zeta. repeat split; try lia; vm_compute; reflexivity. Qed.
